@@ -465,7 +465,7 @@ func (rh *realHistory) round(kind int) (blocks []blockResult, oor bool, err erro
 			}
 			var mine []int64
 			if thr != nil {
-				mine = datypes.ShardIndicesForValidator(w.vals[x].op, int64(*thr), int64(n))
+				mine = pureAssign(w.vals[x].op, int64(*thr), int64(n))
 			}
 			switch kind {
 			case rndOwnAndDeputy:
@@ -494,7 +494,7 @@ func (rh *realHistory) round(kind int) (blocks []blockResult, oor bool, err erro
 			var idx []int64
 			var assigned []int64
 			if thr != nil {
-				assigned = datypes.ShardIndicesForValidator(v.op, int64(*thr), int64(n))
+				assigned = pureAssign(v.op, int64(*thr), int64(n))
 			}
 			b := r.Intn(9)
 			if vi == 0 && kind == rndRandom {
@@ -548,6 +548,31 @@ func (rh *realHistory) round(kind int) (blocks []blockResult, oor bool, err erro
 	// a block inside the proof period (nothing is due), then past the deadline
 	if err := add(30 * time.Second); err != nil {
 		return nil, false, err
+	}
+	// between the queries served above and the tally the threshold may move in either direction:
+	// another replication factor and/or another number of validator slots (random rounds only:
+	// the directed rounds rely on their replication factor)
+	if kind == rndRandom && r.Chance(1, 2) {
+		ctx = w.h.Ctx()
+		w.setRF(ctx, emit.Pick(r, "5", "3", "1.5", "2", "4.5", "1", "7.25"))
+		rh.msgHist["rf-changed-before-tally"]++
+		if r.Bool() {
+			sp, e := w.h.App.StakingKeeper.Params.Get(ctx)
+			if e != nil {
+				return nil, false, e
+			}
+			sp.MaxValidators = uint32(emit.Pick(r, 3, 4, len(w.vals)))
+			if e := w.h.App.StakingKeeper.Params.Set(ctx, sp); e != nil {
+				return nil, false, e
+			}
+			if err := add(5 * time.Second); err != nil {
+				return nil, false, err
+			}
+		}
+		for _, it := range items {
+			qt, qi := w.queryCase(w.h.Ctx(), it.n)
+			rh.queries = append(rh.queries, queryResult{qt, qi})
+		}
 	}
 	if err := add(params.ProofPeriod + time.Duration(r.Intn(3))*time.Second); err != nil {
 		return nil, false, err
